@@ -1,14 +1,282 @@
-import Srctools.Model.C20
+import Srctools.Proofs.C20
+import Srctools.Proofs.C20Tok
+import Srctools.Props.C02
 import Srctools.Gen.C20
 import Srctools.Gen.Tok
-/-! # C20 — secondary formats (property theorems; work in progress) -/
+/-!
+# C20 — secondary format writers emit files their own readers reproduce
+
+Property theorems only. They are about the models of `Model/C20.lean` (cmdseq fields and file,
+the scenes.image container layer, quantised fields, the quoting layers) — *not* about the BVCD
+scene structure, the choreo text grammar, soundscript/VMT block structure, PCF or SMD, which
+have no Lean model and rest on the round-trip search of `harness/p_c20.py`.
+
+The models are generic in the constants extracted from the source (`Gen/C20.lean`,
+`Gen/Tok.lean`); the `C20_gen_*` theorems re-check on every run that the constants the source
+has *now* satisfy the decidable side conditions and have the shapes the model hard-codes.
+-/
 namespace C20
 
-/-- OBLIGATION on the current source: formats, widths and constants the model hard-codes. -/
+/-! ## obligations on the current source -/
+
+/-- cmdseq.py: struct formats, field widths in `write` / `parse` and the version threshold are
+the ones the byte layout of the model is written for. -/
 theorem C20_gen_cmdseq :
     Gen.C20.cmdFmt = "Bi260s260sii260sii" ∧ Gen.C20.cmdFmtPre = "Bi260s260sii260si" ∧
     Gen.C20.cmdPadWidths = [("name", 128), ("cmd.ensure_file", 260), ("exe", 260), ("cmd.args", 260)] ∧
     Gen.C20.cmdReadSizes = [4, 4, 128, 4] ∧
-    Gen.C20.cmdPreV2Threshold = 0x3E4CCCCD := by decide
+    Gen.C20.cmdPreV2Threshold = 0x3E4CCCCD ∧
+    Gen.C20.cmdTables.nameWidth = 128 ∧ Gen.C20.cmdTables.fieldWidth = 260 := by decide
+
+/-- cmdseq.py: special codes are non-zero, fit 32 bits, their names fit the field, and the version
+written is one the reader does not take for "before 0.2". -/
+theorem C20_gen_cmd_tables : cmdTablesOK Gen.C20.cmdTables = true := by decide
+
+/-- choreo.py: struct formats, magic, versions and sort key of the scenes.image reader/writer,
+and the quantisation constants, are the ones the model is written for. -/
+theorem C20_gen_image :
+    Gen.C20.imgReadFmts = ["<4s4i", "<Iiii", "<Iii", "<Ii", "<{}i"] ∧
+    Gen.C20.imgWriteFmts = ["<4siii", "<I", "<Iii", "<Ii", "<i"] ∧
+    Gen.C20.imgDeferFmts = ["<i", "<{}s", "<ii", "<i"] ∧
+    Gen.C20.imgMagicRead = [0x56, 0x53, 0x49, 0x46] ∧ Gen.C20.imgMagicWrite = Gen.C20.imgMagicRead ∧
+    Gen.C20.imgVersions = [2, 3] ∧ Gen.C20.imgSortKey = "lambdaentry:entry.checksum" ∧
+    Gen.C20.tagQuant = (255, 255, "<hB") ∧ Gen.C20.absTagQuant = (4096, 65535, "<hH") ∧
+    Gen.C20.sampleQuantWrite = ["min(255,max(0,round(sample.value*255.0)))",
+                                "min(255,max(0,round(track.value*255.0)))"] ∧
+    Gen.C20.sampleQuantRead = ["value/255.0"] ∧
+    Gen.C20.entryMs = ["round(scene.duration()*1000.0)", "round(scene.duration(EventType.Speak)*1000.0)"] ∧
+    Gen.C20.entrySounds = ["sorted(set(scene.used_sounds()))"] := by decide
+
+/-- tokenizer.py + vmt.py + sndscript.py: the facts the quoting layers rely on — every operator
+and every character that starts another token is in BARE_DISALLOWED or in the leading set of
+`_quote_if_required`; Material.export quotes shader, name and value through it;
+Sound.export passes name and wave names through escape_text inside quotes and everything else
+it writes inside quotes is a `join_float` (floats and enum names). -/
+theorem C20_gen_quote :
+    vmtTablesOK Gen.Tok.tables Gen.C20.vmtLead = true ∧ Gen.C20.vmtQuoteUses = 3 ∧
+    Gen.C20.sndEscaped = ["\"escape_text(self.name)", "\"escape_text(self.sounds[0])", "\"escape_text(wav)"] ∧
+    Gen.C20.sndRaw = ["\"join_float(self.level)", "\"join_float(self.pitch)", "\"join_float(self.volume)",
+                      "self.channel"] := by decide
+
+/-! ## cmdseq -/
+
+/-- **Fixed-width fields.** For every ASCII string without NUL of at most `n` bytes,
+`strip_cstring(pad_string(s, n)) = s` (and `pad_string` does not raise). -/
+theorem C20_cmdseq_field (n : Nat) (s : Bytes) (hlen : s.length ≤ n)
+    (hs : ∀ b ∈ s, b ≠ 0 ∧ b < 128) :
+    ∃ p, pad s n = some p ∧ p.length = n ∧ strip p = some s := by
+  have h : strOK n s := ⟨hlen, hs⟩
+  exact ⟨_, pad_of_strOK h, pad_length (pad_of_strOK h), strip_pad_aux h _⟩
+
+/-- A padded field is cut at its first NUL whatever follows it (junk after the terminator, as
+found in real files, is ignored). -/
+theorem C20_cmdseq_field_junk (s junk : Bytes) (hs : ∀ b ∈ s, b ≠ 0 ∧ b < 128) :
+    strip (s ++ 0 :: junk) = some s := by
+  unfold strip
+  have : (s ++ 0 :: junk).takeWhile (· != 0) = s := by
+    induction s with
+    | nil => simp
+    | cons a t ih =>
+      have ha : a ≠ 0 := (hs a (by simp)).1
+      simp only [List.cons_append, List.takeWhile_cons]
+      simp [ha]
+      exact ih (fun b hb => hs b (by simp [hb]))
+  have hall : s.all isAscii = true := by
+    simp only [List.all_eq_true, isAscii, decide_eq_true_eq]
+    intro b hb; exact (hs b hb).2
+  simp [this, hall]
+
+/-- **Whole file.** For every representable file `x` (distinct sequence names; names, programs,
+arguments and ensure-files ASCII without NUL within their field widths; special commands from the
+table; counts below 2³²): `write` succeeds, `parse(write(x)) = x` — also when anything follows
+the data — and writing the parsed value again gives the identical bytes. -/
+theorem C20_cmdseq (T : CmdTables) (hT : cmdTablesOK T = true) (x : CmdFile) (hx : fileOK T x) :
+    ∃ b, write T x = some b ∧ (∀ trailing, parse T (b ++ trailing) = some x) ∧
+      (∀ x', parse T b = some x' → write T x' = some b) := by
+  obtain ⟨b, hb, hp⟩ := write_parse hT x hx
+  refine ⟨b, hb, hp, ?_⟩
+  intro x' hx'
+  have := hp []
+  simp only [List.append_nil] at this
+  rw [this] at hx'
+  cases hx'
+  exact hb
+
+/-- `C20_cmdseq` at the constants of the current source. -/
+theorem C20_cmdseq_current (x : CmdFile) (hx : fileOK Gen.C20.cmdTables x) :
+    ∃ b, write Gen.C20.cmdTables x = some b ∧ parse Gen.C20.cmdTables b = some x ∧
+      (∀ x', parse Gen.C20.cmdTables b = some x' → write Gen.C20.cmdTables x' = some b) := by
+  obtain ⟨b, h1, h2, h3⟩ := C20_cmdseq _ C20_gen_cmd_tables x hx
+  exact ⟨b, h1, by simpa using h2 [], h3⟩
+
+/-- The writer refuses (raises) instead of truncating: a field longer than its width or with a
+non-ASCII byte makes `pad_string` fail. -/
+theorem C20_cmdseq_rejects (n : Nat) (s : Bytes) (h : n < s.length ∨ ∃ b ∈ s, ¬ b < 128) :
+    pad s n = none := by
+  unfold pad
+  rcases h with h | ⟨b, hb, hnb⟩
+  · simp [h]
+  · split
+    · rfl
+    · have : s.all isAscii = false := by
+        apply Bool.eq_false_iff.mpr
+        intro hall
+        simp only [List.all_eq_true, isAscii, decide_eq_true_eq] at hall
+        exact hnb (hall b hb)
+      simp [this]
+
+/-! ## scenes.image container -/
+
+/-- **Sorted.** The entry table is written from `sortEntries`, which is sorted by CRC… -/
+theorem C20_sorted (es : List Entry) : crcSorted (sortEntries es) :=
+  foldl_insert_sorted es [] List.Pairwise.nil
+
+/-- …because inserting one more entry keeps a sorted table sorted… -/
+theorem C20_insert_sorted (e : Entry) (l : List Entry) (h : crcSorted l) :
+    crcSorted (insertByCrc e l) := insertByCrc_sorted e l h
+
+/-- …and sorting loses or invents no entry. -/
+theorem C20_sort_perm (es : List Entry) : (sortEntries es).Perm es := by
+  have := foldl_insert_perm es []
+  simpa [sortEntries] using this
+
+/-- **Lookup.** Binary search on a sorted table is total and finds a CRC exactly when it is
+present: a present CRC gives an index holding it, and any index returned holds the CRC. -/
+theorem C20_lookup (keys : List Nat) (k : Nat) (hs : keys.Pairwise (· ≤ ·)) :
+    (k ∈ keys → ∃ j, bsearch keys k = some j ∧ keys[j]? = some k) ∧
+    (∀ j, bsearch keys k = some j → keys[j]? = some k) ∧
+    (bsearch keys k = none → k ∉ keys) := by
+  have sound : ∀ j, bsearch keys k = some j → keys[j]? = some k := by
+    intro j hj
+    obtain ⟨h1, h2⟩ := bsearchAux_sound keys k _ _ _ j (Nat.le_refl _) hj
+    rw [List.getElem?_eq_getElem h2]
+    have : keys.getD j 0 = keys[j] := by simp [List.getD_eq_getElem?_getD, h2]
+    rw [← this, h1]
+  have complete : k ∈ keys → ∃ j, bsearch keys k = some j ∧ keys[j]? = some k := by
+    intro hk
+    obtain ⟨i, hi, hik⟩ := List.getElem_of_mem hk
+    have hget : keys.getD i 0 = k := by simp [List.getD_eq_getElem?_getD, hi, hik]
+    obtain ⟨j, hj, _, _⟩ := bsearchAux_complete keys k (natSorted_of_pairwise hs)
+      (keys.length + 1) 0 keys.length i (Nat.le_refl _) (by omega) (Nat.zero_le _) hi hget
+    exact ⟨j, hj, sound j hj⟩
+  refine ⟨complete, sound, ?_⟩
+  intro hnone hk
+  obtain ⟨j, hj, _⟩ := complete hk
+  rw [hnone] at hj
+  cases hj
+
+/-- Every entry handed to the writer is found by the game's lookup in the table written. -/
+theorem C20_lookup_image (es : List Entry) (e : Entry) (he : e ∈ es) :
+    ∃ j, bsearch ((sortEntries es).map (·.crc)) e.crc = some j ∧
+      ((sortEntries es).map (·.crc))[j]? = some e.crc := by
+  have hs : ((sortEntries es).map (·.crc)).Pairwise (· ≤ ·) := by
+    have := C20_sorted es
+    unfold crcSorted at this
+    exact List.pairwise_map.mpr this
+  have hm : e.crc ∈ (sortEntries es).map (·.crc) :=
+    List.mem_map_of_mem ((C20_sort_perm es).mem_iff.mpr he)
+  exact (C20_lookup _ _ hs).1 hm
+
+/-! ## quantised fields -/
+
+/-- Writing the value a code stands for gives that code back: `round((b/K)·K)` clamped to
+`[0, hi]` is `b`, for every factor `K > 0` and code `b ≤ hi` (K = 255, 4096, 1000). -/
+theorem C20_quant_code (K hi b : Nat) (hK : 0 < K) (hb : b ≤ hi) :
+    encQ hi ((b : Int) * K) K = b := encQ_exact hi b K hK hb
+
+/-- **Idempotence.** Reader∘writer of a quantised field is a projection:
+`quant (quant v) = quant v` for every value `v` (a fraction) — so the second generation of a
+file carries the same codes as the first. -/
+theorem C20_quant_idem (K hi : Nat) (hK : 0 < K) (v : Int × Nat) :
+    quantQ K hi (quantQ K hi v) = quantQ K hi v := by
+  unfold quantQ
+  simp only
+  rw [encQ_exact hi _ K hK (encQ_le hi _ _)]
+
+/-! ## quoting layers -/
+
+/-- **Soundscript.** A sound name, wave name (any string) written as `"` + `escape_text` + `"`
+is read back by the KeyValues tokenizer as exactly one STRING token with that value, on the same
+line, whatever follows. -/
+theorem C20_snd_quote (T : Tok.Tables) (h : Tok.escOK T = true) (o : Tok.Opts)
+    (ho : o.allowEscapes = true) (fold : Char → List Char) (s rest : List Char) (st : Tok.St)
+    (fuel : Nat) :
+    Tok.nextToken T o fold (fuel + 1) st (sndQuote T s ++ rest)
+      = .tok .string s { line := st.line, lastCr := false } rest := by
+  have := Tok.C02_inverse T h o ho fold false s rest st fuel
+  unfold sndQuote
+  simp only [List.cons_append, List.append_assoc, List.nil_append]
+  rw [this, Tok.C02_single_line_count T h s]
+  rfl
+
+/-- A quoted `low, high` range (comma and space inside) is one token too: the instance of
+`C20_snd_quote` the range defect was about. -/
+theorem C20_snd_range (T : Tok.Tables) (h : Tok.escOK T = true) (o : Tok.Opts)
+    (ho : o.allowEscapes = true) (fold : Char → List Char) (lo hi rest : List Char) (st : Tok.St)
+    (fuel : Nat) :
+    Tok.nextToken T o fold (fuel + 1) st (sndQuote T (lo ++ [',', ' '] ++ hi) ++ rest)
+      = .tok .string (lo ++ [',', ' '] ++ hi) { line := st.line, lastCr := false } rest :=
+  C20_snd_quote T h o ho fold _ rest st fuel
+
+/-- **VMT.** A shader name, parameter name or value without `"` and CR (the reader decodes no
+escapes, so these two cannot be represented) written by `_quote_if_required` — bare when
+possible, otherwise in plain quotes — followed by any delimiter the writer uses (space, newline)
+is read back by `Material.parse`'s tokenizer as one STRING token with exactly that value. -/
+theorem C20_vmt_quote (T : Tok.Tables) (lead : List Char) (hT : vmtTablesOK T lead = true)
+    (fold : Char → List Char) (s : List Char) (d : Char) (rest : List Char) (st : Tok.St)
+    (fuel : Nat) (hq : '"' ∉ s) (hr : '\r' ∉ s) (hd : T.bareDisallowed.contains d = true)
+    (hbom : ¬ (s.head? = some (Char.ofNat 0xFEFF) ∧ st.line = 1)) :
+    Tok.nextToken T vmtOpts fold (fuel + 1) st (vmtQuote T lead s ++ d :: rest)
+      = .tok .string s { line := st.line + s.count '\n', lastCr := false } (d :: rest) :=
+  vmtQuote_read T lead hT fold s d rest st fuel hq hr hd hbom
+
+/-- Without the leading-character rule the law fails: a value starting with `/` written bare is
+not read back (the defect that was fixed in `Material.export`). -/
+theorem C20_vmt_lead_needed :
+    Tok.nextToken Gen.Tok.tables vmtOpts (fun c => [c]) 10 {}
+      (vmtQuote Gen.Tok.tables [] ['/', 'a'] ++ ['\n'])
+      ≠ .tok .string ['/', 'a'] { line := 1, lastCr := false } ['\n'] := by decide +kernel
+
+/-! ## non-vacuity -/
+
+def C20_sample_file : CmdFile :=
+  [([0x61, 0x62], [{ exe := .str [0x76, 0x62, 0x73, 0x70], args := [0x2d, 0x67], enabled := true,
+                     ensure := some [0x78], useProcWin := false, noWait := true },
+                   { exe := .special 257, args := [], enabled := false, ensure := none,
+                     useProcWin := true, noWait := false }]),
+   ([], [])]
+
+theorem C20_sample_ok : fileOK Gen.C20.cmdTables C20_sample_file := by
+  refine ⟨by decide, by decide, ?_⟩
+  intro p hp
+  simp only [C20_sample_file, List.mem_cons, List.not_mem_nil, or_false] at hp
+  rcases hp with rfl | rfl
+  · refine ⟨⟨by decide, by decide⟩, by decide, ?_⟩
+    intro c hc
+    simp only [List.mem_cons, List.not_mem_nil, or_false] at hc
+    rcases hc with rfl | rfl
+    · exact ⟨⟨by decide, by decide⟩, ⟨by decide, by decide⟩, ⟨by decide, by decide⟩⟩
+    · exact ⟨by decide, ⟨by decide, by decide⟩, trivial⟩
+  · exact ⟨⟨by decide, by decide⟩, by decide, by simp⟩
+
+example : ∃ b, write Gen.C20.cmdTables C20_sample_file = some b ∧
+    parse Gen.C20.cmdTables b = some C20_sample_file := by
+  obtain ⟨b, h1, h2, _⟩ := C20_cmdseq_current _ C20_sample_ok
+  exact ⟨b, h1, h2⟩
+
+example : (write Gen.C20.cmdTables C20_sample_file).bind (parse Gen.C20.cmdTables)
+    = some C20_sample_file := by decide +kernel
+
+example : ((write Gen.C20.cmdTables C20_sample_file).map List.length) = some (31 + 4 + 4 + (128 + 4 + 2 * 804) + (128 + 4)) := by
+  decide +kernel
+
+example : bsearch [3, 5, 5, 9, 12] 9 = some 3 ∧ bsearch [3, 5, 5, 9, 12] 4 = none := by decide
+
+example : encQ 255 (1 * 255) 2 = 128 ∧ encQ 255 (3 * 255) 2 = 255 ∧ encQ 255 (-1) 2 = 0 ∧
+    roundHE 5 2 = 2 ∧ roundHE 7 2 = 4 ∧ roundHE (-5) 2 = -2 := by decide
+
+example : vmtQuote Gen.Tok.tables Gen.C20.vmtLead ['/', 'a'] = ['"', '/', 'a', '"'] ∧
+    vmtQuote Gen.Tok.tables Gen.C20.vmtLead ['a', '/', 'b'] = ['a', '/', 'b'] ∧
+    vmtQuote Gen.Tok.tables Gen.C20.vmtLead [] = ['"', '"'] := by decide
 
 end C20
